@@ -67,8 +67,9 @@ type spec struct {
 	Kind      string            `json:"kind"` // family tag: iso:<opcode>, mix, so:<kind>x<k>, basm, ...
 	Rsize     int               `json:"rsize"`
 	Procs     []procSpec        `json:"procs,omitempty"`
-	Sos       []string          `json:"sos,omitempty"`   // "barrier:0", "queue:4", ...
-	Links     [][2]int          `json:"links,omitempty"` // (processor, shared object)
+	ProcDom   []int             `json:"procdom,omitempty"` // processor i is built from domain ProcDom[i] (`procs` are then the domains); empty = identity
+	Sos       []string          `json:"sos,omitempty"`     // "barrier:0", "queue:4", ...
+	Links     [][2]int          `json:"links,omitempty"`   // (processor, shared object)
 	Inputs    int               `json:"inputs,omitempty"`
 	Outputs   int               `json:"outputs,omitempty"`
 	Bonds     [][2]string       `json:"bonds,omitempty"`
@@ -163,7 +164,15 @@ func buildBM(s *spec) (*bondmachine.Bondmachine, *bondmachine.Config, error) {
 			m.Program = prog
 		}
 		bm.Domains = append(bm.Domains, m)
-		if _, err := bm.Add_processor(len(bm.Domains) - 1); err != nil {
+	}
+	procDom := s.ProcDom
+	if len(procDom) == 0 {
+		for i := range s.Procs {
+			procDom = append(procDom, i)
+		}
+	}
+	for _, d := range procDom {
+		if _, err := bm.Add_processor(d); err != nil {
 			return nil, nil, err
 		}
 	}
